@@ -511,6 +511,109 @@ theorem simE_step {fns P n} (hE : SimE fns P n) (hA : SimArgs fns P n) (hB : Sim
         · cases hb : binop op a b with
           | none => simp [hb, R.stuck] at h2'
           | some v => cases hu : update env1 x v <;> simp [hb, hu, pure_eq, R.ok, R.stuck] at h2'
+  | assignF x i e1 =>
+    simp [lowerE, Option.bind_eq_some_iff] at hl
+    obtain ⟨ce, ve, c1, h1, rfl, rfl, rfl⟩ := hl
+    have ⟨m1, _⟩ := lowerE_mono e1 c ce ve c1 h1
+    constructor
+    · intro t env' w h
+      simp only [evalExpr, bind_eq, bind_ok_iff] at h
+      obtain ⟨t1, ⟨env1, a⟩, t2, hel, h2', rfl⟩ := h
+      obtain ⟨σ1, hx1, ha1, hf1⟩ := hE.store h1 ha hel (.t c1)
+      cases a with
+      | int k =>
+        cases hu : setField env1 x i k with
+        | none => simp [hu, R.stuck] at h2'
+        | some env2 =>
+          simp [hu, pure_eq, R.ok] at h2'
+          obtain ⟨rfl, rfl, rfl⟩ := h2'
+          obtain ⟨fs, hlk, hlt, hup⟩ := setField_inv hu
+          have hσx : (σ1.set (.t c1) (.int k)) (.x x) = .recd fs := by
+            rw [set_other _ _ (by intro h; cases h)]; exact ha1 x _ hlk
+          refine ⟨(σ1.set (.t c1) (.int k)).set (.x x) (.recd (fs.set i k)), t1, [], ?_, (EvalV.pure (by simp [evalValue])), by simp,
+            (ha1.set_tmp _ _).update hup, ?_⟩
+          · have h2s : ExecC P (σ1.set (.t c1) (.int k)) [.assignField (.x x) i (.move (.t c1))] []
+                (.normal ((σ1.set (.t c1) (.int k)).set (.x x) (.recd (fs.set i k)))) :=
+              ExecC.single (.assignField (n := k) (EvalV.pure (by simp [evalValue])) (by rw [hσx]; simp [setPayload, hlt]))
+            have := ExecC.append hx1 h2s
+            simpa [List.append_assoc] using this
+          · exact (hf1.trans (Frame.set_tmp _ _ (Nat.le_refl _)) m1).trans (Frame.set_x _ _ _ _) (Nat.le_refl _)
+      | _ => simp [R.stuck] at h2'
+    · intro t w h
+      simp only [evalExpr, bind_eq, bind_ret_iff] at h
+      rcases h with h | ⟨t1, ⟨env1, a⟩, t2, hel, h2', rfl⟩
+      · exact ExecC.append_ret _ (hE.ret h1 ha h)
+      · cases a with
+        | int k => cases hu : setField env1 x i k <;> simp [hu, pure_eq, R.ok, R.stuck] at h2'
+        | _ => simp [R.stuck] at h2'
+  | cassignF op x i e1 =>
+    simp [lowerE, Option.bind_eq_some_iff] at hl
+    obtain ⟨hop, cr, vr, c1, h1, rfl, rfl, rfl⟩ := hl
+    have ⟨m1, b1⟩ := lowerE_mono e1 (c + 1) cr vr c1 h1
+    have ⟨a1, k1, hk1, hk1'⟩ := atv_spec vr c1 b1
+    constructor
+    · intro t env' w h
+      simp only [evalExpr, hop] at h
+      cases hx : getField env x i with
+      | none => simp [hx, R.stuck] at h
+      | some a =>
+        simp only [hx, Bool.not_true, Bool.false_eq_true, if_false, bind_eq, bind_ok_iff] at h
+        obtain ⟨t1, ⟨env1, b⟩, t2, hel, h2', rfl⟩ := h
+        obtain ⟨fs0, hlk0, hget0⟩ := getField_inv hx
+        have ha0 : Agree env (σ.set (.t c) (.int a)) := ha.set_tmp _ _
+        obtain ⟨σ1, hx1, hv1, ha1, hf1⟩ := hE.mat h1 ha0 hel
+        cases hb : binop op (.int a) b with
+        | none => simp [hb, R.stuck] at h2'
+        | some v =>
+          cases v with
+          | int k =>
+            cases hu : setField env1 x i k with
+            | none => simp [hb, hu, R.stuck] at h2'
+            | some env2 =>
+              simp [hb, hu, pure_eq, R.ok] at h2'
+              obtain ⟨rfl, rfl, rfl⟩ := h2'
+              obtain ⟨fs, hlk, hlt, hup⟩ := setField_inv hu
+              have hc : σ1 (.t c) = .int a := by rw [hf1 c (by omega)]; simp
+              have hσx : (σ1.set (.t (atvNext vr c1)) (.int k)) (.x x) = .recd fs := by
+                rw [set_other _ _ (by intro h; cases h)]; exact ha1 x _ hlk
+              refine ⟨((σ1.set (.t (atvNext vr c1)) (.int k)).set (.x x) (.recd (fs.set i k))), t1, [], ?_, (EvalV.pure (by simp [evalValue])), by simp,
+                (ha1.set_tmp _ _).update hup, ?_⟩
+              · have h0 : ExecC P σ [.assign (.t c) (.cloneField (.x x) i)] [] (.normal (σ.set (.t c) (.int a))) :=
+                  ExecC.assign1 ((EvalV.pure (by simp [evalValue, ha x _ hlk0, payload, hget0])))
+                have h3 : ExecC P σ1 [.assign (.t (atvNext vr c1)) (.binop (.t c) op (atvVar vr c1)),
+                      .assignField (.x x) i (.move (.t (atvNext vr c1)))] []
+                    (.normal ((σ1.set (.t (atvNext vr c1)) (.int k)).set (.x x) (.recd (fs.set i k)))) := by
+                  have s1 : ExecS P σ1 (.assign (.t (atvNext vr c1)) (.binop (.t c) op (atvVar vr c1))) []
+                      (.normal (σ1.set (.t (atvNext vr c1)) (.int k))) := .assign ((EvalV.pure (by simp [evalValue, hc, hv1, hb])))
+                  have s2 : ExecS P (σ1.set (.t (atvNext vr c1)) (.int k)) (.assignField (.x x) i (.move (.t (atvNext vr c1)))) []
+                      (.normal ((σ1.set (.t (atvNext vr c1)) (.int k)).set (.x x) (.recd (fs.set i k)))) :=
+                    .assignField (n := k) (EvalV.pure (by simp [evalValue])) (by rw [hσx]; simp [setPayload, hlt])
+                  simpa using ExecC.cons s1 (ExecC.single s2)
+                have := ExecC.append h0 (ExecC.append hx1 h3)
+                simpa [List.append_assoc] using this
+              · exact (((Frame.set_tmp σ (.int a) (Nat.le_refl c)).trans (hf1.mono (by omega)) (Nat.le_refl _)).trans
+                  (Frame.set_tmp _ _ (by omega)) (Nat.le_refl _)).trans (Frame.set_x _ _ _ _) (Nat.le_refl _)
+          | _ => simp [hb, R.stuck] at h2'
+    · intro t w h
+      simp only [evalExpr, hop] at h
+      cases hx : getField env x i with
+      | none => simp [hx, R.stuck] at h
+      | some a =>
+        simp only [hx, Bool.not_true, Bool.false_eq_true, if_false, bind_eq, bind_ret_iff] at h
+        obtain ⟨fs0, hlk0, hget0⟩ := getField_inv hx
+        have ha0 : Agree env (σ.set (.t c) (.int a)) := ha.set_tmp _ _
+        have h0 : ExecC P σ [.assign (.t c) (.cloneField (.x x) i)] [] (.normal (σ.set (.t c) (.int a))) :=
+          ExecC.assign1 ((EvalV.pure (by simp [evalValue, ha x _ hlk0, payload, hget0])))
+        rcases h with h | ⟨t1, ⟨env1, b⟩, t2, hel, h2', rfl⟩
+        · have := ExecC.append h0 (ExecC.append_ret (atvCode vr c1 ++ [.assign (.t (atvNext vr c1)) (.binop (.t c) op (atvVar vr c1)),
+                    .assignField (.x x) i (.move (.t (atvNext vr c1)))]) (hE.ret h1 ha0 h))
+          simpa [List.append_assoc] using this
+        · cases hb : binop op (.int a) b with
+          | none => simp [hb, R.stuck] at h2'
+          | some v =>
+            cases v with
+            | int k => cases hu : setField env1 x i k <;> simp [hb, hu, pure_eq, R.ok, R.stuck] at h2'
+            | _ => simp [hb, R.stuck] at h2'
   | ite cnd th el =>
     simp [lowerE, Option.bind_eq_some_iff] at hl
     obtain ⟨cc, vc, c1, h1, ct, xt, c2, h2, ce, xe, c3, h3, rfl, rfl, rfl⟩ := hl
@@ -1064,9 +1167,8 @@ theorem simE_step {fns P n} (hE : SimE fns P n) (hA : SimArgs fns P n) (hB : Sim
       · have := (hK args env c ca xs c1 σ h1 ha).2 t w h
         simpa [List.append_assoc] using ExecC.append_ret _ this
       · simp [pure_eq, R.ok] at h2'
-  | record fs =>
-    simp [lowerE, Option.bind_eq_some_iff] at hl
-    obtain ⟨ca, xs, c1, h1, rfl, rfl, rfl⟩ := hl
+  | record perm fs =>
+    obtain ⟨ca, xs, c1, h1, hperm, rfl, rfl, rfl⟩ := lowerE_record_inv hl
     have ⟨m1, hxs⟩ := lowerCtorArgs_mono fs c ca xs c1 h1
     have hne : ∀ x ∈ xs, x ≠ Var.t c1 := by
       intro x hx; obtain ⟨j, rfl, hj⟩ := hxs x hx; intro h; cases h; omega
@@ -1074,14 +1176,22 @@ theorem simE_step {fns P n} (hE : SimE fns P n) (hA : SimArgs fns P n) (hB : Sim
     · intro t env' w h
       simp only [evalExpr, bind_eq, bind_ok_iff] at h
       obtain ⟨t1, ⟨env1, fs'⟩, t2, hargs, h2', rfl⟩ := h
-      simp [pure_eq, R.ok] at h2'
-      obtain ⟨rfl, rfl, rfl⟩ := h2'
       obtain ⟨σ1, hx1, hmap, ha1, hf1⟩ := (hK fs env c ca xs c1 σ h1 ha).1 t1 env1 fs' hargs
-      have s1 : ExecS P σ1 (.setDisc (.t c1) (.recd [])) [] (.normal (σ1.set (.t c1) (.recd []))) := .setDisc
-      have hmap' : xs.map (σ1.set (.t c1) (.recd [])) = fs'.map Val.int := by
+      have hlen : fs'.length = xs.length := by
+        have := congrArg List.length hmap; simpa using this.symm
+      rw [hlen] at h2'
+      simp [hperm, pure_eq, R.ok] at h2'
+      obtain ⟨rfl, rfl, rfl⟩ := h2'
+      have hall : ∀ p ∈ perm, p < (List.replicate xs.length (0 : Int)).length := by
+        intro p hp
+        simp only [permOk, Bool.and_eq_true, List.all_eq_true, decide_eq_true_eq] at hperm
+        simpa using hperm.1.2 p hp
+      have s1 : ExecS P σ1 (.setDisc (.t c1) (.recd (List.replicate xs.length 0))) []
+          (.normal (σ1.set (.t c1) (.recd (List.replicate xs.length 0)))) := .setDisc
+      have hmap' : xs.map (σ1.set (.t c1) (.recd (List.replicate xs.length 0))) = fs'.map Val.int := by
         rw [← hmap]; exact List.map_congr_left (fun y hy => set_other _ _ (hne y hy))
-      obtain ⟨σ2, hx2, hv2, hk2⟩ := exec_storeFieldsR (to := .t c1) xs fs' [] _ (by simp) hne hmap'
-      refine ⟨σ2, t1, [], ?_, (EvalV.pure (by simp [evalValue, hv2])), by simp, ?_, ?_⟩
+      obtain ⟨σ2, hx2, hv2, hk2⟩ := exec_storeFieldsAt (P := P) (to := .t c1) perm xs fs' _ _ (by simp) hall hne hmap'
+      refine ⟨σ2, t1, [], ?_, (EvalV.pure (by simp [evalValue, hv2, arrange, hlen])), by simp, ?_, ?_⟩
       · have := ExecC.append hx1 (ExecC.cons s1 hx2)
         simpa [List.append_assoc] using this
       · intro x v hx
@@ -1095,7 +1205,7 @@ theorem simE_step {fns P n} (hE : SimE fns P n) (hA : SimArgs fns P n) (hB : Sim
       rcases h with h | ⟨t1, ⟨env1, fs'⟩, t2, hargs, h2', rfl⟩
       · have := (hK fs env c ca xs c1 σ h1 ha).2 t w h
         simpa [List.append_assoc] using ExecC.append_ret _ this
-      · simp [pure_eq, R.ok] at h2'
+      · by_cases hp : permOk perm fs'.length = true <;> simp [hp, pure_eq, R.ok, R.stuck] at h2'
   | field e1 i =>
     by_cases hvar : ∃ x, e1 = .var x
     · -- `x.f`: a lazy read of a path
